@@ -330,8 +330,10 @@ impl<'a, B, OC, SC, L> StorageResolver<'a, B, OC, SC, L> {
     }
 }
 
-/// loads one thread may have in progress at a time (a page tree sixteen levels deep needs about twenty)
-const MAX_NESTED_LOADS: usize = 64;
+/// loads one thread may have in progress at a time (a page tree sixteen levels deep needs about twenty).
+/// every load may add the direct nesting the parser allows (20 levels) on top of its own frames, and
+/// the product has to fit the 2 MiB stack of a spawned thread
+const MAX_NESTED_LOADS: usize = 32;
 /// loads that one outermost load may cause for references it has loaded already (a page named by
 /// each of its annotations is loaded again for every one of them by a document without object cache)
 const MAX_REPEATED_LOADS: usize = 1 << 16;
